@@ -19,6 +19,7 @@ import (
 )
 
 var verifCorpus = []struct{ name, src string }{
+	{"attrgroup-undefined", "define void @f() #3 {\n\tret void\n}\n\ndefine void @g() #3 {\n\tcall void @f() #3\n\tret void\n}\n"},
 	{"attachments", "define i32 @f(i32 %x) !a1 !2 {\n\t%y = add i32 %x, 1, !a !12, !a1 !2\n\t%z = add i32 %y, 1, !a1 !12, !a !2\n\tret i32 %z, !b !1\n}\n\n!1 = !{i32 1}\n!2 = !{i32 2}\n!12 = !{i32 12}\n"},
 	{"attrgroups-merged", "define void @f() #0 {\n\tret void\n}\n\ndefine void @g() #1 {\n\tcall void @f() #0\n\tret void\n}\n\nattributes #0 = { nounwind }\nattributes #1 = { cold }\nattributes #0 = { readnone }\n"},
 	{"recursive-types", `%list = type { i32, %list* }
